@@ -455,6 +455,14 @@ def op_meta(art):
                         casc = ci.cascade
             except Exception:
                 pass
+            # width the hardware reads (implicit extent from OFM, kernel, stride, pads) vs the width of Vela's own IFM box
+            try:
+                kk, pp = npu_op.kernel, npu_op.padding
+                if kk is not None and pp is not None and npu_op.ifm is not None and int(npu_op.ifm_upscale.value if hasattr(npu_op.ifm_upscale, "value") else 0) in (0, 1):
+                    hw_w = (int(npu_op.ofm.shape.width) - 1) * int(kk.stride_x) + (int(kk.width) - 1) * int(kk.dilation_x) + 1 - int(pp.left) - int(pp.right)
+                    m.update(hw_ifm_w=hw_w, box_ifm_w=int(npu_op.ifm.shape.width), ifm_width0=int(npu_op.ifm.tiles.width_0))
+            except Exception:
+                pass
             m.update(op_type=op.type.name, orig_type=op.original_type.name if op.original_type else None,
                      k_h=int(k.height), stride_y=int(k.stride.y), dil_y=int(k.dilation.y), pad_top=int(pad[0]),
                      pad_bottom=int(pad[2]), cascade=int(casc),
